@@ -1,7 +1,9 @@
 mod checks_crash;
 mod checks_http;
 mod httpx;
+mod plugin;
 mod checks_outage;
+mod checks_p;
 mod checks_pure;
 mod checks_s;
 mod checks_t;
@@ -30,6 +32,7 @@ fn main() {
             _ if v["replay"]["engine"].as_str() == Some("crash") => checks_crash::replay(&v),
             _ if v["replay"]["engine"].as_str() == Some("S") => checks_s::replay(&v),
             _ if v["replay"]["engine"].as_str() == Some("outage") => checks_outage::replay(&v),
+            _ if v["replay"]["engine"].as_str() == Some("P") => checks_p::replay(&v),
             _ => {
                 eprintln!("no replayer for this file");
                 2
@@ -40,10 +43,12 @@ fn main() {
     }
     let code = match cmd.as_str() {
         "smoke" => smoke(),
+        "psmoke" => psmoke(),
         "C01" => checks_t::c01(a.tier),
         "C02" => checks_t::c02(a.tier),
         "C03" => checks_crash::c03(a.tier),
         "C04" => checks_t::c04(a.tier),
+        "C05" => checks_p::c05(a.tier),
         "C06" => checks_t::c06(a.tier),
         "C07" => checks_t::c07(a.tier),
         "C08" => checks_t::c08(a.tier),
@@ -51,6 +56,8 @@ fn main() {
         "C10" => checks_s::c10(a.tier),
         "C11" => checks_s::c11(a.tier),
         "C12" => checks_outage::c12(a.tier),
+        "C13" => checks_p::c13(a.tier),
+        "C14" => checks_p::c14(a.tier),
         "C15" => checks_http::c15(a.tier),
         "C16" => checks_http::c16(a.tier),
         "C17" => checks_pure::c17(a.tier),
@@ -97,5 +104,34 @@ fn smoke() -> i32 {
         println!("    db: {}", o.db_after.canonical());
     }
     println!("total {:?}", t0.elapsed());
+    0
+}
+
+fn psmoke() -> i32 {
+    use plugin::*;
+    use serde_json::json;
+    use std::time::Duration;
+    let tower = FakeTower::start(0xe1);
+    let dir = ClientDir::new();
+    let t0 = std::time::Instant::now();
+    let mut c = Client::start(&dir, RetryOpts::default(), None).expect("handshake");
+    println!("handshake {:?}", t0.elapsed());
+    let r = c.call("registertower", json!([format!("{}@127.0.0.1:{}", tower.id_hex(), tower.port)]), Duration::from_secs(5));
+    println!("register -> {r:?}");
+    let (rev, loc) = revocation(1);
+    let r = c.call("commitment_revocation", rev, Duration::from_secs(5));
+    println!("hook -> {r:?} loc {loc}");
+    println!("store {:?}", read_store(&dir));
+    tower.set_up(false);
+    let (rev2, _) = revocation(2);
+    let r = c.call("commitment_revocation", rev2, Duration::from_secs(5));
+    println!("hook2 -> {r:?}");
+    println!("store {:?}", read_store(&dir));
+    let r = c.call("listtowers", json!([]), Duration::from_secs(5));
+    println!("listtowers -> {r:?}");
+    tower.set_up(true);
+    let ok = wait_until(Duration::from_secs(10), || read_store(&dir).map_or(false, |s| s.pending.is_empty()));
+    println!("delivered after recovery: {ok} in {:?}; store {:?}", t0.elapsed(), read_store(&dir));
+    println!("requests: {:?}", tower.requests("/add_appointment").len());
     0
 }
